@@ -12,13 +12,14 @@ use crate::stats::CaseOutcome;
 use crate::tree;
 use std::collections::{BTreeMap, BTreeSet};
 
-pub const FAULTS: [&str; 18] = [
+pub const FAULTS: [&str; 19] = [
     "F1-tag-while-listening",
     "F1-prefixless-multiline",
     "F1-temp-target-txtpp",
     "F1-unused-tag",
     "F2-command-fails-before-deps",
     "F2-command-fails-after-deps",
+    "F2-command-killed-by-signal",
     "F3-include-missing",
     "F3-include-directory",
     "F3-include-invalid-utf8",
@@ -162,6 +163,14 @@ fn fault_ops(fault: &str, p: &Project, a: &Analysis, i: usize, rng: &mut Rng) ->
             }
             vec![insert_lines(p, a, i, &["-TXTPP#run printf partial; exit 7".into()], rng, Some(false))]
         }
+        "F2-command-killed-by-signal" => vec![insert_lines(
+            p,
+            a,
+            i,
+            &["-TXTPP#run printf partial; kill -9 $$".into()],
+            rng,
+            None,
+        )],
         "F3-include-missing" => vec![insert_lines(p, a, i, &["TXTPP#include no_such_file.txt".into()], rng, None)],
         "F3-include-directory" => vec![insert_lines(p, a, i, &["TXTPP#include .".into()], rng, None)],
         "F3-include-invalid-utf8" => vec![
